@@ -418,13 +418,49 @@ where
     let mut o = Outcome::default();
     let mut g = Gen::new(pu(params, "gseed"));
     let mut target = gen_smooth(&mut g, true);
-    target.eval_budget = 10_000;
-    let d = target.d;
     let depth = pus(params, "depth");
     let v: i8 = if pb(params, "forward") { 1 } else { -1 };
-    let eps = pf(params, "eps");
-    let x: Vec<f64> = (0..d).map(|_| (g.normal() * pf(params, "start_scale")) as f32 as f64).collect();
-    let p: Vec<f64> = (0..d).map(|_| g.normal() as f32 as f64).collect();
+    let mut eps = pf(params, "eps");
+    // Exact ties. Isotropic Gaussian with precision a and step size eps such that a eps^2 = 2, started at
+    // the mode with an integer momentum: one leapfrog step maps (0, p) to (eps p, 0) EXACTLY in f32 and
+    // f64, the orbit has period 4, so U-turn products are exactly 0 at every second point. Algorithm 6
+    // continues while both products are >= 0: a tie is not a U-turn.
+    let exact = params.get("exact_tie").and_then(|v| v.as_bool()).unwrap_or(false);
+    let mut exact_xp = None;
+    if exact {
+        let d = g.usize(1, 4);
+        let (a, e) = *g.pick(&[(2.0, 1.0), (0.5, 2.0), (8.0, 0.5)]);
+        target = GTarget::new(GKind::Gauss, d);
+        target.a = (0..d * d).map(|i| if i % (d + 1) == 0 { a } else { 0.0 }).collect();
+        eps = e;
+        let mut p: Vec<f64> = (0..d).map(|_| g.range(0, 6) as f64 - 3.0).collect();
+        if p.iter().all(|v| *v == 0.0) {
+            p[0] = 1.0;
+        }
+        exact_xp = Some((vec![0.0; d], p));
+        o.count("probe_exact_tie_cases", 1);
+    }
+    target.eval_budget = 10_000;
+    let d = target.d;
+    let (x, p): (Vec<f64>, Vec<f64>) = match exact_xp {
+        Some(xp) => xp,
+        None => ((0..d).map(|_| (g.normal() * pf(params, "start_scale")) as f32 as f64).collect(), (0..d).map(|_| g.normal() as f32 as f64).collect()),
+    };
+    if exact {
+        // the tie semantics of the criterion itself, at the two orbit points one step apart
+        let dev: <B as burn::tensor::backend::Backend>::Device = Default::default();
+        let t1 = |v: &[f64]| Tensor::<B, 1>::from_data(TensorData::new(v.to_vec(), [d]), &dev);
+        let x1: Vec<f64> = p.iter().map(|v| v * eps).collect();
+        let zero = vec![0.0; d];
+        // minus = (0, p), plus = (eps p, 0): (x+ - x-).p- = eps |p|^2 > 0, (x+ - x-).p+ = 0 exactly
+        let cont = mini_mcmc::nuts::verif_stop_criterion::<B>(t1(&zero), t1(&x1), t1(&p), t1(&zero));
+        if !cont {
+            o.violate("uturn_tie", &format!("stop_criterion[{name}]:tie-counted-as-u-turn"), format!("x- = {zero:?}, x+ = {x1:?}, p- = {p:?}, p+ = {zero:?}: the products are {} and exactly 0; Algorithm 6 continues while both are >= 0, the library stops", eps * p.iter().map(|v| v * v).sum::<f64>()));
+            o.hash = str_hash(&params.to_string());
+            o.nontrivial = true;
+            return o;
+        }
+    }
     let joint0 = target.logp(&x) - 0.5 * p.iter().map(|a| a * a).sum::<f64>();
     let logu_off = pf(params, "logu_offset");
     let logu = ((joint0 - logu_off) as f32) as f64;
@@ -456,7 +492,7 @@ where
     let merge_us: Vec<f64> = ev.iter().filter(|e| e.role == "nuts_merge_u").map(|e| e.vals[0]).collect();
     let lib_leaves = ev.iter().filter(|e| e.role == "nuts_leaf").count();
     let feed = Feed { merge_us, ..Default::default() };
-    let mut c = Ctx { t: &target, eps: eps_used, eps_b, logu, joint0: joint0_t, feed, ambiguous: None, structure_error: None, leaves: vec![], max_joint_err: 0.0, leapfrogs: 0 };
+    let mut c = Ctx { t: &target, eps: eps_used, eps_b, logu, joint0: joint0_t, feed, ambiguous: None, structure_error: None, leaves: vec![], max_joint_err: 0.0, leapfrogs: 0, exact };
     let start = c.start(&x, &p);
     let tr = c.build_tree(&start, v, depth);
     if c.ambiguous.is_some() {
@@ -533,6 +569,9 @@ impl Scenario for BuildTreeIsolated {
             1 => -g.f64_in(0.0, 3.0),
             _ => -(1.0 - g.f64()).ln(),
         };
+        if g.bool(1, 12) {
+            return json!({"float": *g.pick(&["f64", "f32"]), "gseed": g.u64(), "seed": g.u64(), "depth": g.usize(1, 4), "forward": g.bool(1, 2), "eps": fbits(1.0), "start_scale": fbits(1.0), "logu_offset": fbits(*g.pick(&[64.0, 256.0, 4.0])), "exact_tie": true});
+        }
         json!({"float": *g.pick(&["f64", "f64", "f32"]), "gseed": g.u64(), "seed": g.u64(), "depth": depth, "forward": g.bool(1, 2), "eps": fbits(eps), "start_scale": fbits(g.log_uniform(0.1, 4.0)), "logu_offset": fbits(off)})
     }
     fn execute(&self, p: &Value, ws: bool) -> Outcome {
